@@ -168,6 +168,14 @@ def _draw_geometry(rng: random.Random, method: str, small: bool = True) -> dict:
     if rng.random() < 0.5:
         cx, cy = ox + length * rng.uniform(0.3, 0.45), oy + width * rng.uniform(0.3, 0.45)
         w, h = length * rng.uniform(0.1, 0.2), width * rng.uniform(0.1, 0.2)
+        if rng.random() < 0.4:
+            # a building whose wall lies on the centre line of the lot: grid points of every odd row count fall exactly on
+            # its contour (the on-edge branch of the cut-out logic)
+            cx, cy = ox + length / 2.0, oy + width / 2.0
+            if rng.random() < 0.5:
+                cx -= w
+            if rng.random() < 0.5:
+                cy -= h
         nogo = [[[r3(cx), r3(cy)], [r3(cx + w), r3(cy)], [r3(cx + w), r3(cy + h)], [r3(cx), r3(cy + h)]]]
     if method == "BIRECTANGLECONSTRAINED":
         return {"method": method, "b_min": b_min, "b_max_x": b_max, "b_max_y": r3(b_max * rng.uniform(1.0, 1.2)),
